@@ -30,12 +30,30 @@ Section R2FMx.
   Definition env_set (env : env_mx F) (x0 : nat) m0 n0 (A : 'M[F]_(m0, n0)) : env_mx F :=
     fun m n x => if x == x0 then inj_mx A m n else env m n x.
 
+  (* shapes: n1, n2 fold sizes; n samples; p features; t targets; k* = number of singular
+     values of fold 1, fold 2, full data; nn rows of the matrix passed to predict *)
+  Record r2f_dims := Dims {
+    d_n1 : nat; d_n2 : nat; d_n : nat; d_p : nat; d_t : nat;
+    d_k1 : nat; d_k2 : nat; d_k : nat; d_nn : nat }.
+
+  (* inputs: the environment (fold data, full data, SVD oracle values, Xnew), the scorer
+     as a function of (y_true, y_pred), the alpha grid, alpha_type == "relative",
+     regularization_method == "cutoff", and rcond *)
+  Record r2f_cfg (t : nat) := Cfg {
+    c_env : env_mx F;
+    c_scorer : forall m : nat, 'M[F]_(m, t) -> 'M[F]_(m, t) -> F;
+    c_alphas : seq F; c_relative : bool; c_cutoff : bool; c_rcond : F }.
+
   Section Fit.
-    (* n1, n2 fold sizes; n samples; p features; t targets; k* = number of singular values *)
-    Variables (n1 n2 n p t k1 k2 k nn : nat).
-    Variable env : env_mx F.
-    Variable scorer : forall m : nat, 'M[F]_(m, t) -> 'M[F]_(m, t) -> F.   (* (y_true, y_pred) *)
-    Variables (alphas : seq F) (relative cutoff : bool) (rcond : F).
+    Variable d : r2f_dims.
+    Variable c : r2f_cfg (d_t d).
+    Local Notation n1 := (d_n1 d).  Local Notation n2 := (d_n2 d).  Local Notation n := (d_n d).
+    Local Notation p := (d_p d).    Local Notation t := (d_t d).
+    Local Notation k1 := (d_k1 d).  Local Notation k2 := (d_k2 d).  Local Notation k := (d_k d).
+    Local Notation nn := (d_nn d).
+    Local Notation env := (c_env c).        Local Notation scorer := (c_scorer c).
+    Local Notation alphas := (c_alphas c).  Local Notation relative := (c_relative c).
+    Local Notation cutoff := (c_cutoff c).  Local Notation rcond := (c_rcond c).
 
     Definition s1 := col_list (env k1 1%N vS1).
     Definition s2 := col_list (env k2 1%N vS2).
@@ -82,4 +100,31 @@ Section R2FMx.
         eval_mx env (recon_prog m p k xX xU xS xV) = 0,
         (forall i j : 'I_k, (i <= j)%N -> env k 1%N xS j ord0 <= env k 1%N xS i ord0)
       & (forall i : 'I_k, 0 <= env k 1%N xS i ord0)].
+
+  (* what the theorems assume about one fit: the three SVD oracles, rcond >= 0, a
+     non-empty grid of non-negative alphas *)
+  Definition r2f_hyps (d : r2f_dims) (c : r2f_cfg (d_t d)) : Prop :=
+    [/\ svd_hyp (c_env c) (d_n1 d) (d_p d) (d_k1 d) vX1 vU1 vS1 vV1,
+        svd_hyp (c_env c) (d_n2 d) (d_p d) (d_k2 d) vX2 vU2 vS2 vV2,
+        svd_hyp (c_env c) (d_n d) (d_p d) (d_k d) vX vU vS vV,
+        0 <= c_rcond c
+      & (0 < size (c_alphas c))%N /\ all (fun a => 0 <= a) (c_alphas c)].
+
+  (* a singular direction is kept iff its singular value exceeds rcond (and alpha, for the
+     cut-off method); [strunc] zeroes the singular values that are not kept *)
+  Definition keep (cutoff : bool) (rcond alpha x : F) : bool :=
+    (rcond < x) && (~~ cutoff || (alpha < x)).
+  Definition strunc k (cutoff : bool) (rcond alpha : F) (s : 'cV[F]_k) : 'cV[F]_k :=
+    \col_i (if keep cutoff rcond alpha (s i ord0) then s i ord0 else 0).
+  (* the Tikhonov parameter in effect: alpha, resp. 0 for the cut-off method *)
+  Definition aeff (cutoff : bool) (alpha : F) : F := if cutoff then 0 else alpha.
+
+  (* W is THE explicit regularised least-squares fit of y on the matrix Xr := U diag(sr) V^T:
+     it solves the (regularised) normal equations and lies in the row space of Xr.
+     (Proofs/Ridge2FoldP.v: such a W minimises |y - Xr w|^2 + a |w|^2 over all w, is the
+     only minimiser when a > 0 and the minimum-norm one when a = 0.) *)
+  Definition reg_solution m p k t (U : 'M[F]_(m, k)) (sr : 'cV[F]_k) (V : 'M[F]_(p, k))
+      (y : 'M[F]_(m, t)) (a : F) (W : 'M[F]_(p, t)) : Prop :=
+    let Xr := U *m diag_mx sr^T *m V^T in
+    (Xr^T *m Xr + a%:M) *m W = Xr^T *m y /\ exists z, W = Xr^T *m z.
 End R2FMx.
